@@ -64,16 +64,25 @@ def setRet (ps : List Ping) (p : Nat) (r : Bool) : List Ping :=
   | some pg => ps.set p { pg with ret := some r }
   | none => ps
 
+/-- The cases of the `select` at the end of `Ping` / `pingDelayDisconnect` as read from the source:
+(channel, result) with channel 0 = the ping's own channel, 1 = `ctx.Done()`, result 0 = `return nil`,
+1 = `return ctx.Err()`. -/
+def selectCases : List (Nat × Nat) := Facts.C43.pingCases ++ Facts.C43.pingDelayCases
+
+/-- Does the closed-channel case return success?  Does the context case? -/
+def pongCaseReturnsNil : Bool := Facts.C43.pingCases.contains (0, 0) && Facts.C43.pingDelayCases.contains (0, 0)
+def ctxCaseReturnsNil : Bool := selectCases.contains (1, 0)
+
 def step (s : State) : Action → Option State
   | .call id => some { pings := s.pings ++ [{ id := id }], reg := regSet s.reg id s.pings.length }
   | .pong id => some { pings := pongPings id (regGet s.reg id) 0 s.pings, reg := regDel s.reg id }
   | .retOk p =>
     match s.pings[p]? with
-    | some pg => if pg.closed ∧ pg.ret = none then some { pings := setRet s.pings p true, reg := regDel s.reg pg.id } else none
+    | some pg => if pg.closed ∧ pg.ret = none then some { pings := setRet s.pings p pongCaseReturnsNil, reg := regDel s.reg pg.id } else none
     | none => none
   | .retErr p =>
     match s.pings[p]? with
-    | some pg => if pg.ret = none then some { pings := setRet s.pings p false, reg := regDel s.reg pg.id } else none
+    | some pg => if pg.ret = none then some { pings := setRet s.pings p ctxCaseReturnsNil, reg := regDel s.reg pg.id } else none
     | none => none
 
 def run : State → List Action → Option State
@@ -123,5 +132,22 @@ def tickOutcome (s : State) (p : Nat) : Option TickOutcome :=
     | some false => some .missed
     | none => none
   | none => none
+
+/-! ### timing of one keep-alive tick -/
+
+/-- How long a tick's ping may wait for its pong: the duration handed to `context.WithTimeout` in
+`pingLoop`, as coefficients of (pingInterval, pingTimeout) read from the source. -/
+def pingWait (interval timeout : Nat) : Nat :=
+  Facts.C43.pingWaitCoeffInterval * interval + Facts.C43.pingWaitCoeffTimeout * timeout
+
+/-- The `disconnect_delay` announced to the server (same units as the inputs). -/
+def disconnectDelay (interval timeout : Nat) : Nat :=
+  Facts.C43.disconnectDelayCoeffInterval * interval + Facts.C43.disconnectDelayCoeffTimeout * timeout
+
+/-- One tick: the matching pong arrives `d` after the ping was written (`none` = never).  Outcome
+and how long the tick lasted. -/
+def tick (interval timeout : Nat) : Option Nat → TickOutcome × Nat
+  | some d => if d < pingWait interval timeout then (.ok, d) else (.missed, pingWait interval timeout)
+  | none => (.missed, pingWait interval timeout)
 
 end TdModel.C43
